@@ -336,12 +336,15 @@ def PMat.mul : PMat α → PMat α → PMat α
   | .real a, .real b => .real (a.mul b)
   | a, b => .cplx (a.toC.cmul b.toC)
 
-/-- the `s` vector of `PolarizedRays.update`: `k0 × k1` normalised; when its magnitude is exactly
-zero, `k0 × x̂` normalised -/
+/-- rounding guard of the parallel test (`mag < 1e-8`, after the repair of F-C17-2) -/
+def parTol : α := Num.ofRat 1 100000000
+
+/-- the `s` vector of `PolarizedRays.update`: `k0 × k1` normalised; when the directions are parallel
+(magnitude below the rounding guard), `k0 × x̂` normalised -/
 def sVector (k0 k1 : V3 α) : V3 α :=
   let s := cross k0 k1
   let mag := vnorm s
-  if Num.isZero mag then
+  if Num.lt mag parTol then
     let s' := cross k0 xhat
     s'.sdiv (vnorm s')
   else s.sdiv mag
